@@ -214,7 +214,7 @@ static std::string gen_tunnel(uint64_t seed, uint64_t idx, bool thorough) {
     int port = r.chance(0.3) ? (int)(int[]){1025, 17221, 20000, 40000, 65535}[r.below(5)] : 0;
     int addr = r.chance(0.3) ? (int)r.range(1, 3) : 0;  // destination MAC / IP address variants (multicast bit, bytes >= 0x80, octets 0 and 255)
     o.line(strf("cfg scen=tunnel epoch=%llu env=%d addr=%d port=%d longnames=%d argorder=%d stackfill=%d udp=%d fd=%d tscf=%d count=%d o0=%d ethpad=%d read0=%.2f clkgran=%llu sched=%s lat=%llu:%llu cost=%llu:%llu qcap=%zu tend=%llu rseed=0x%llx skew0=%lld skew1=%lld",
-                (unsigned long long)pick_epoch(r), (int)r.chance(0.25), addr, port, (int)r.chance(0.3), (int)r.coin(), stackfill, udp, fd, tscf, count, pick_copy(r, 0.3), (int)(!udp && r.chance(0.4)), read0, (unsigned long long)clkgran, sched_str(r).c_str(), (unsigned long long)lat_lo, (unsigned long long)lat_hi,
+                (unsigned long long)(r.chance(0.01) ? 0 : pick_epoch(r)), (int)r.chance(0.25), addr, port, (int)r.chance(0.3), (int)r.coin(), stackfill, udp, fd, tscf, count, pick_copy(r, 0.3), (int)(!udp && r.chance(0.4)), read0, (unsigned long long)clkgran, sched_str(r).c_str(), (unsigned long long)lat_lo, (unsigned long long)lat_hi,
                 (unsigned long long)r.range(50, 500), (unsigned long long)r.range(500, 20000), qcap, (unsigned long long)tend,
                 (unsigned long long)r.next(), (long long)big_skew(r), (long long)big_skew(r)));
     // the Ethernet link flaps once (raw mode): the sockets report ENETDOWN, nothing is lost
